@@ -23,6 +23,7 @@ import (
 	"path/filepath"
 	"reflect"
 	"regexp"
+	"runtime/debug"
 	"sort"
 	"strings"
 
@@ -482,7 +483,7 @@ func (g *c03Gen) stmts(n, depth int, mayReturn, inLoop bool) ([]*c03Stmt, bool) 
 		case x < 45: // assignment
 			vs := g.varsOf(func(gv c03GV) bool { return !gv.cst && gv.t.scalar() })
 			gv := vs[g.r.Intn(len(vs))]
-			out = append(out, &c03Stmt{tag: c03SAssign, v: gv.v, t: gv.t, e: g.expr(gv.t, 3)})
+			out = append(out, &c03Stmt{tag: c03SAssign, v: gv.v, t: gv.t, e: g.updateExpr(gv)})
 		case x >= 60 && x < 65 && depth > 1: // nested conditional assignments of one variable in both arms
 			vs := g.varsOf(func(gv c03GV) bool { return !gv.cst && gv.t.scalar() })
 			gv := vs[g.r.Intn(len(vs))]
@@ -609,6 +610,30 @@ func (g *c03Gen) stmts(n, depth int, mayReturn, inLoop bool) ([]*c03Stmt, bool) 
 		}
 	}
 	return out, false
+}
+
+// updateExpr: the right-hand side of x = ...; a third of the assignments are
+// updates x = x op e (every operator that has a compound form op=, x++ and
+// x-- included), which the compound style spells x op= e.
+func (g *c03Gen) updateExpr(x c03GV) *c03Expr {
+	if x.t.kind == 0 || g.r.Intn(3) != 0 {
+		return g.expr(x.t, 3)
+	}
+	xv := &c03Expr{tag: c03EVar, v: x.v}
+	switch k := g.r.Intn(11); {
+	case k < 7:
+		op := []int{c03Add, c03Sub, c03Mul, c03Div, c03BAnd, c03BOr, c03BXor}[k]
+		if g.r.Intn(4) == 0 && g.litAllowed(op, x.t, false) {
+			if (op == c03Add || op == c03Sub) && g.r.Bool() && c03LitFits(x.t, big.NewInt(1)) {
+				return &c03Expr{tag: c03EBin, op: op, t: x.t, a: xv, b: &c03Expr{tag: c03ELit, t: x.t, n: big.NewInt(1)}}
+			}
+			return &c03Expr{tag: c03EBin, op: op, t: x.t, a: xv, b: g.constOperand(x.t)}
+		}
+		return &c03Expr{tag: c03EBin, op: op, t: x.t, a: xv, b: g.expr(x.t, 2)}
+	case k < 9:
+		return &c03Expr{tag: c03EShl, t: x.t, a: xv, k: g.r.Intn(x.t.w + 1)}
+	}
+	return &c03Expr{tag: c03EShr, t: x.t, a: xv, k: g.r.Intn(x.t.w + 1)}
 }
 
 // storeValue: the value of an element / field store: a run-time expression or
@@ -967,6 +992,11 @@ func c03Generate(r *RNG, class string, small, fewWide bool) *c03Prog {
 		budget, np = r.Range(1, 3), r.Range(1, 2)
 	}
 	g.p.funcs = append(g.p.funcs, g.genFunc("main", nf, np, r.Range(1, 3), budget))
+	// spelling of the program (same Mini term): each variant in about a third of the programs
+	sr := r.Fork()
+	g.p.style = c03Style{compound: sr.Intn(3) == 0, splitDecl: sr.Intn(3) == 0, groupParams: sr.Intn(3) == 0,
+		hexLits: sr.Intn(3) == 0, comments: sr.Intn(3) == 0, loopForm: sr.Intn(3), named: sr.Intn(3) == 0}
+	g.p.style.bareReturn = g.p.style.named && sr.Bool()
 	return g.p
 }
 
@@ -992,6 +1022,78 @@ var c03DevNull, _ = os.OpenFile(os.DevNull, os.O_WRONLY, 0)
 type c03Opt struct {
 	name string
 	set  func(p *utils.Params)
+	// other entry points / call patterns: a complete compilation of p
+	compile func(p *c03Prog, outDir string) c03Compiled
+}
+
+// c03Guarded runs a compilation with the compiler's stdout chatter discarded
+// and panics turned into errors.
+func c03Guarded(f func() (*circuit.Circuit, error)) (res c03Compiled) {
+	saved := os.Stdout
+	os.Stdout = c03DevNull
+	defer func() { os.Stdout = saved }()
+	defer func() {
+		if r := recover(); r != nil {
+			res.err, res.panicked = fmt.Sprint(r), true
+		}
+	}()
+	circ, err := f()
+	if err != nil {
+		res.err = err.Error()
+		return
+	}
+	res.circ = circ
+	return
+}
+
+// one compiler object (and one Params with its SymbolIDs) used for many programs
+var c03SharedCompiler = compiler.New(utils.NewParams())
+
+// c03Doors: other ways into the same functionality than CompileSSA +
+// CompileCircuit on a fresh compiler (notes/C03-findings.md, table Doors).
+func c03Doors() []c03Opt {
+	return []c03Opt{
+		{name: "entry:Compiler.Compile", compile: func(p *c03Prog, _ string) c03Compiled {
+			return c03Guarded(func() (*circuit.Circuit, error) {
+				c, _, err := compiler.New(utils.NewParams()).Compile(p.src(), nil)
+				return c, err
+			})
+		}},
+		{name: "entry:Compiler.CompileFile", compile: func(p *c03Prog, dir string) c03Compiled {
+			file := filepath.Join(dir, "c03door.mpcl")
+			if err := os.WriteFile(file, []byte(p.src()), 0o644); err != nil {
+				return c03Compiled{err: err.Error()}
+			}
+			return c03Guarded(func() (*circuit.Circuit, error) {
+				c, _, err := compiler.New(utils.NewParams()).CompileFile(file, nil)
+				return c, err
+			})
+		}},
+		{name: "reused-compiler-object", compile: func(p *c03Prog, _ string) c03Compiled {
+			return c03Guarded(func() (*circuit.Circuit, error) {
+				c, _, err := c03SharedCompiler.Compile(p.src(), nil)
+				return c, err
+			})
+		}},
+		{name: "gc-pressure:GOGC=1", compile: func(p *c03Prog, _ string) c03Compiled {
+			old := debug.SetGCPercent(1)
+			defer debug.SetGCPercent(old)
+			return c03CompileOpt(p.src(), nil)
+		}},
+		{name: "unsized-main-parameters+inputSizes", compile: func(p *c03Prog, _ string) c03Compiled {
+			sty := p.style
+			sty.unsized = true
+			var sizes [][]int
+			for _, w := range c03MainWidths(p) {
+				sizes = append(sizes, []int{w})
+			}
+			src := p.srcStyled(sty)
+			return c03Guarded(func() (*circuit.Circuit, error) {
+				c, _, err := compiler.New(utils.NewParams()).Compile(src, sizes)
+				return c, err
+			})
+		}},
+	}
 }
 
 type c03Discard struct{}
@@ -1010,28 +1112,28 @@ func c03Options(thorough bool) []c03Opt {
 		p.PkgPath = []string{"/nonexistent/pkg", "/tmp"}
 	}
 	opts := []c03Opt{
-		{"Wnone", func(p *utils.Params) { p.Warn.DisableAll() }},
-		{"verbose+diagnostics+writers+errorloc", func(p *utils.Params) {
+		{name: "Wnone", set: func(p *utils.Params) { p.Warn.DisableAll() }},
+		{name: "verbose+diagnostics+writers+errorloc", set: func(p *utils.Params) {
 			p.Verbose, p.Diagnostics, p.MPCLCErrorLoc = true, true, true
 			writers(p)
 		}},
-		{"prune+symbolids+pkgpath", func(p *utils.Params) {
+		{name: "prune+symbolids+pkgpath", set: func(p *utils.Params) {
 			p.OptPruneGates = true
 			symbols(p)
 		}},
 	}
 	if thorough {
 		opts = append(opts,
-			c03Opt{"W-no-unreachable", func(p *utils.Params) { p.Warn.Unreachable = false }},
-			c03Opt{"W-no-returndiff", func(p *utils.Params) { p.Warn.ReturnDiff = false }},
-			c03Opt{"verbose", func(p *utils.Params) { p.Verbose = true }},
-			c03Opt{"diagnostics", func(p *utils.Params) { p.Diagnostics = true }},
-			c03Opt{"errorloc", func(p *utils.Params) { p.MPCLCErrorLoc = true }},
-			c03Opt{"writers", writers},
-			c03Opt{"circout-bristol", func(p *utils.Params) { p.CircOut, p.CircFormat = c03Discard{}, "bristol" }},
-			c03Opt{"prune", func(p *utils.Params) { p.OptPruneGates = true }},
-			c03Opt{"symbolids+pkgpath", symbols},
-			c03Opt{"Wnone+prune+verbose", func(p *utils.Params) {
+			c03Opt{name: "W-no-unreachable", set: func(p *utils.Params) { p.Warn.Unreachable = false }},
+			c03Opt{name: "W-no-returndiff", set: func(p *utils.Params) { p.Warn.ReturnDiff = false }},
+			c03Opt{name: "verbose", set: func(p *utils.Params) { p.Verbose = true }},
+			c03Opt{name: "diagnostics", set: func(p *utils.Params) { p.Diagnostics = true }},
+			c03Opt{name: "errorloc", set: func(p *utils.Params) { p.MPCLCErrorLoc = true }},
+			c03Opt{name: "writers", set: writers},
+			c03Opt{name: "circout-bristol", set: func(p *utils.Params) { p.CircOut, p.CircFormat = c03Discard{}, "bristol" }},
+			c03Opt{name: "prune", set: func(p *utils.Params) { p.OptPruneGates = true }},
+			c03Opt{name: "symbolids+pkgpath", set: symbols},
+			c03Opt{name: "Wnone+prune+verbose", set: func(p *utils.Params) {
 				p.Warn.DisableAll()
 				p.OptPruneGates, p.Verbose = true, true
 			}},
@@ -1885,7 +1987,12 @@ func c03MainWidths(p *c03Prog) []int {
 
 // c03OptSig: what a program does under an option set: the compile-error class,
 // or the circuit outputs on the vectors.
+var c03DoorDir = os.TempDir()
+
 func c03OptSig(p *c03Prog, vecs [][]*big.Int, opt *c03Opt) (string, string) {
+	if opt != nil && opt.compile != nil {
+		return c03OptSigOf(p, vecs, opt.compile(p, c03DoorDir))
+	}
 	return c03OptSigOf(p, vecs, c03CompileOpt(p.src(), opt))
 }
 
@@ -1940,10 +2047,21 @@ func c03OptionSweep(c *Ctx, i int, p *c03Prog, vecs [][]*big.Int, def c03Compile
 		}
 	}
 	base, _ := c03OptSigOf(p, sub, def) // the compilation with utils.NewParams() made by c03Check
-	for oi, opt := range c03Options(c.Thorough()) {
+	c03DoorDir = c.OutDir
+	if def.circ != nil {
+		c03ComputePatterns(c, i, p, sub, def, reported)
+	}
+	opts := c03Options(c.Thorough())
+	nOpt := len(opts)
+	opts = append(opts, c03Doors()...)
+	for oi, opt := range opts {
 		opt := opt
-		// quick tier: warnings-off on every program, the other sets on every third
-		if !c.Thorough() && oi > 0 && i%3 != 0 {
+		// quick tier: warnings-off on every program, the other option sets on
+		// every third, the other entry points / call patterns on every fifth
+		if !c.Thorough() && oi > 0 && oi < nOpt && i%3 != 0 {
+			continue
+		}
+		if !c.Thorough() && oi >= nOpt && i%5 != 1 {
 			continue
 		}
 		sig, _ := c03OptSig(p, sub, &opt)
@@ -1986,6 +2104,9 @@ func c03OptionSweep(c *Ctx, i int, p *c03Prog, vecs [][]*big.Int, def c03Compile
 			}
 		}
 		key := "c03:options:" + opt.name + ":" + kind
+		if opt.compile != nil {
+			key = "c03:door:" + opt.name + ":" + kind
+		}
 		what := fmt.Sprintf("%s under options %s: inputs %s: default options give %s, these options give %s (reference %s)",
 			kind, opt.name, rep.Inputs, rep.Default, rep.Variant, rep.Reference)
 		reported[key]++
@@ -1993,6 +2114,82 @@ func c03OptionSweep(c *Ctx, i int, p *c03Prog, vecs [][]*big.Int, def c03Compile
 			c.Fail(key, what, rep)
 		}
 		c.Hist("oracle-failure:" + key)
+	}
+}
+
+// c03ComputePatterns: Circuit.Compute is called the way callers may call it:
+// signed inputs as NEGATIVE big.Ints (the testsuite writes -43), the same
+// big.Int object passed for two parameters, twice in a row on the same
+// circuit; the inputs must not be modified and the outputs must be those of
+// the plain call.
+func c03ComputePatterns(c *Ctx, i int, p *c03Prog, vecs [][]*big.Int, def c03Compiled, reported map[string]int) {
+	m := p.funcs[len(p.funcs)-1]
+	ws := c03MainWidths(p)
+	fail := func(pattern, what string, v []*big.Int) {
+		key := "c03:compute:" + pattern + ":changes-result"
+		reported[key]++
+		if reported[key] <= 3 {
+			c.Fail(key, what, c03OptReplay{Seed: c.Seed, Case: i, Options: pattern, Program: p.src(),
+				Inputs: c03VecStr(v), Features: c03Features(p).list()})
+		}
+		c.Hist("oracle-failure:" + key)
+	}
+	c.Hist("compute-call-patterns")
+	for _, v0 := range vecs {
+		v := make([]*big.Int, len(v0))
+		for k := range v0 {
+			v[k] = c03Norm(ws[k], v0[k])
+		}
+		want, e := c03Compute(def.circ, v)
+		if e != "" {
+			return
+		}
+		args := make([]*big.Int, len(v))
+		for k := range v {
+			a := new(big.Int).Set(v[k])
+			if m.ptys[k].kind == 1 && a.Bit(ws[k]-1) == 1 { // negative value of a signed parameter
+				a.Sub(a, new(big.Int).Lsh(big.NewInt(1), uint(ws[k])))
+			}
+			args[k] = a
+			for j := 0; j < k; j++ { // aliased argument objects
+				if args[j].Cmp(a) == 0 {
+					args[k] = args[j]
+				}
+			}
+		}
+		before := make([]string, len(args))
+		for k, a := range args {
+			before[k] = a.String()
+		}
+		for round := 0; round < 2; round++ {
+			var got []*big.Int
+			var err error
+			func() {
+				defer func() {
+					if r := recover(); r != nil {
+						err = fmt.Errorf("panic: %v", r)
+					}
+				}()
+				got, err = def.circ.Compute(args)
+			}()
+			if err != nil || len(got) != len(want) {
+				fail("negative-and-aliased-inputs", fmt.Sprintf("Compute(%v) fails: %v", before, err), v)
+				return
+			}
+			for k := range got {
+				if c03Norm(int(def.circ.Outputs[k].Type.Bits), got[k]).Cmp(want[k]) != 0 {
+					fail("negative-and-aliased-inputs", fmt.Sprintf("Compute(%v), call %d: output %d = 0x%s, plain call 0x%s",
+						before, round+1, k, got[k].Text(16), want[k].Text(16)), v)
+					return
+				}
+			}
+			for k, a := range args {
+				if a.String() != before[k] {
+					fail("inputs-modified", fmt.Sprintf("Compute modified input %d: %s -> %s", k, before[k], a.String()), v)
+					return
+				}
+			}
+		}
 	}
 }
 
